@@ -179,6 +179,8 @@ def run(case, W):
         return Result(violation=("callbacks", "%s handler (fsm %d) codes %r: expected callbacks %r, got %r" % (meta["kind"], meta["fsm"], meta["seq"], p.cbs, got)))
     fv = t.final_vars()
     for key, val in m.data.items():
+        if key in m.unknown:
+            continue
         if not ref.same_value(m.cs[key[0]]["vars"][key[1]], val, fv[key]):
             return Result(violation=("variables", "variable %r expected %r got %r" % (key, bytes(val), fv[key])))
     ninv = len([c for c in p.cbs if c[0] == "H"])
